@@ -7,7 +7,12 @@ Part 1 (E2): breadth-first search over timelines of subscribe / re-subscribe / c
         reference model; the oracle (bv/refs/covref.py) is evaluated after every event.
 Part 2 (E3): the forms a SubscribeCOV request may take (lifetime omitted = indefinite, clause 13.14.1.1.4) on every
         object kind, fresh and as a re-subscription.
+Part 3 (E3 over timelines): many subscriptions with different lifetimes (up to 8 / 10 pending expiry timers), in every
+        order of a few and in every subset of many, then one cancellation or renewal of any one of them, then nothing
+        but time: the clock is moved across the expiries without traffic and the device is probed (all objects change in
+        one instant, activeCovSubscriptions is read) half a second after an expiry, for every expiry.
 """
+import itertools
 import os
 import re
 import time
@@ -34,7 +39,19 @@ RULE = ("part1: per configuration (object kind(s), logical subscribers = (stack,
         "modulo the COV period where the periodic object is used, plus the reference model's own state.  Merged on purpose: "
         "invoke-id counters and IOCB serials (they only pair a reply with its request inside one event) and the subscribers' "
         "observation logs (judged per event).  States in which the oracle failed are reported and not expanded further.  "
-        "part2: every (object kind, confirmed flag, prior subscription none|indefinite|timed) with the lifetime omitted.")
+        "The queue-* configurations put three logical subscribers on ONE subscriber device (three processes on one object; "
+        "one process on three objects, with the event 'the objects of a group change in the same instant'), so that "
+        "several notifications for one address are under way at once, with indefinite lifetimes and one bounded write per "
+        "object so that the search closes.  "
+        "part2: every (object kind, confirmed flag, prior subscription none|indefinite|timed) with the lifetime omitted.  "
+        "part3: slot i of ten fixed logical subscriptions (2 stacks x 2 processes x analog/binary/multi-state/pulse "
+        "converter) always asks for lifetime (11,5,21,9,33,14,7,25,17,28)[i] s, confirmed on even slots; a case = "
+        "(subscription order: every permutation of the first n slots and every non-empty subset of the first N slots in "
+        "slot order, all at t=0) x (at t=1: cancel | renew with the other notification kind and a lifetime shorter than / "
+        "between / longer than all others) x (which subscribed slot) x (passive: step to half a second after every "
+        "expiry in turn, judged at every step, then probe | k: go straight to half a second after the k-th expiry and "
+        "probe); probe = every monitored object changes in one instant, then activeCovSubscriptions is read; a timeline "
+        "stops at the first event the oracle objects to.")
 ASSUMPTIONS = [
     "single thread; virtual clock bound to bacpypes.task._time; perfect vlan (every frame delivered at once, in order); "
     "subscribers acknowledge every confirmed notification (what happens to unacknowledged ones is not judged)",
@@ -46,17 +63,25 @@ ASSUMPTIONS = [
     "when seen they must go to live subscriptions only, carry the current values and count as a report",
     "values are dyadic rationals (0.375 instead of 0.4 of the increment) so that 'at least the increment' is decided "
     "exactly in binary floating point, as single precision on the wire and as double in the device",
-    "timelines beyond the stated depth, lifetimes other than 0/2/5 s, more than three logical subscribers and network "
-    "faults (C04/C05) are not covered",
+    "part1: timelines beyond the stated depth, lifetimes other than 0/2/5 s, more than three logical subscribers (five in "
+    "one thorough configuration) are not covered; part3: ten fixed lifetimes between 5 and 33 s and renewals of 3/12/40 s, "
+    "all subscriptions made in one instant, one cancellation or renewal per timeline; network faults (C04/C05) are not "
+    "covered anywhere",
 ]
 BOUNDS = {
     "quick": "part1 depth: one subscriber av<=5, bv/msv<=6 (closure), pc<=4, periodic pc<=5; two stacks av<=4, bv<=4, "
              "periodic pc<=3; two processes on one stack av<=3; three subscribers av<=3; av+bv mixed<=3; restricted "
-             "time-crossing alphabets <=10 (closure for av); part2: 5 kinds x 2 flags x 3 prior states",
+             "time-crossing alphabets <=10 (closure for av); three processes of one device on av and one process on "
+             "av+bv+msv changing together: closure; part2: 5 kinds x 2 flags x 3 prior states; part3: all orders of the "
+             "first n<=4 slots and all 255 subsets of the first 8 slots x {cancel, renew 3 s, renew 40 s} x every slot x "
+             "{passive, probe after the k-th expiry for every k}",
     "thorough": "part1 depth: one subscriber av<=8, bv/msv<=12 (closure), pc<=6, periodic pc<=7; two stacks av<=5, "
                 "bv<=12 (closure), msv<=5, pc<=4, periodic pc<=4; two processes av<=4, bv<=12; all 25 burst pairs: one "
                 "subscriber av<=5, bv<=12, two stacks av<=4; three subscribers av<=4; mixed<=5; restricted alphabets <=16 "
-                "(closure); part2 as quick",
+                "(closure); three processes of one device on av (closure) and on bv with lifetimes 0/5 <=5, one process "
+                "on av+bv+msv changing singly and in every group (closure), 2 processes x 2 objects + a second device <=5; "
+                "part2 as quick; part3: all orders of the first n<=6 slots and all 1023 subsets of the ten slots x "
+                "{cancel, renew 3 s, renew 12 s, renew 40 s} x every slot x {passive, probe after every expiry}",
 }
 
 SMALL = 0.375
@@ -71,8 +96,10 @@ G_BURSTS = (("toggle", "toggle"), ("toggle", "flags"), ("same", "toggle"), ("tog
 # ----------------------------------------------------------------------------- configurations
 
 def make_cfg(label, subs, depth, lifetimes=(0, 2, 5), flags=(False, True), writes=None, bursts="curated", advs=(1, 3),
-             read=True, cancel=True, max_states=60000):
+             read=True, cancel=True, max_states=60000, multi=()):
     kinds = sorted(set(s[2] for s in subs))
+    if multi == "all":          # every group of two or more of the monitored objects changes in one instant
+        multi = [g for n in range(2, len(kinds) + 1) for g in itertools.combinations(kinds, n)]
     w = {}
     b = {}
     for k in kinds:
@@ -88,7 +115,7 @@ def make_cfg(label, subs, depth, lifetimes=(0, 2, 5), flags=(False, True), write
             b[k] = [list(p) for p in bursts if all(t in base for t in p)]
     return {"label": label, "subs": [list(s) for s in subs], "depth": depth, "lifetimes": list(lifetimes),
             "flags": list(flags), "writes": w, "bursts": b, "advs": list(advs), "read": read, "cancel": cancel,
-            "max_states": max_states}
+            "max_states": max_states, "multi": [list(g) for g in multi]}
 
 
 def configs(tier):
@@ -127,6 +154,22 @@ def configs(tier):
                             writes=("flip", "toggle"), bursts=(), advs=(1,), read=False, cancel=False))
     out.append(make_cfg("renew-time-av", subs(one, "av"), 10 if q else 16, lifetimes=(0, 2, 5), flags=(False, True),
                         writes=("flip",), bursts=(), advs=(1,), read=True, cancel=False))
+    # several notifications for one subscriber device in one instant (they queue up behind each other in the device):
+    # three processes of one device watching one object, and one process watching three objects that change in the
+    # same instant, singly and in every group; restricted alphabet (indefinite lifetime, one bounded qualifying
+    # write per object) so that the search closes
+    three_pids = [(0, 1), (0, 2), (0, 3)]
+    three_objs = [(0, 1, "av"), (0, 1, "bv"), (0, 1, "msv")]
+    out.append(make_cfg("queue-3pids-av", subs(three_pids, "av"), 8 if q else 16, lifetimes=(0,), writes=("flip",),
+                        bursts=(), advs=()))
+    # (quick: the three objects change together only; thorough: singly and in every group)
+    out.append(make_cfg("queue-3objs", three_objs, 8 if q else 16, lifetimes=(0,), writes=() if q else ("flip", "toggle"),
+                        bursts=(), advs=(), multi=[("av", "bv", "msv")] if q else "all"))
+    if not q:
+        out.append(make_cfg("queue-3pids-bv-timed", subs(three_pids, "bv"), 5, lifetimes=(0, 5), writes=("toggle",),
+                            bursts=(("toggle", "toggle"),), advs=(1,)))
+        out.append(make_cfg("queue-2pids-2objs+1", [(0, 1, "av"), (0, 2, "av"), (0, 1, "bv"), (0, 2, "bv"), (1, 1, "av")], 5,
+                            lifetimes=(0,), writes=("flip", "toggle"), bursts=(), advs=(), multi="all"))
     return out
 
 
@@ -183,11 +226,19 @@ def menu(cfg, ref):
             s1 = resolve(kind, pair[0], o.state(), o.reported)
             if s1 is not None and resolve(kind, pair[1], s1, o.reported) is not None:
                 ev.append(("w", kind, tuple(pair)))
+    for group in cfg.get("multi", ()):
+        ev.append(multi_write(group))
     for n in cfg["advs"]:
         ev.append(("adv", n))
     if cfg["read"]:
         ev.append(("read", cfg["subs"][-1][0]))
     return ev
+
+
+def multi_write(kinds):
+    """The event in which every object of `kinds` takes a qualifying new value in the same instant (analog: one
+    increment up from the initial value or back down to it; others: toggle); both tokens are always enabled."""
+    return ("mw", tuple((k, ("flip" if k in ANALOG else "toggle",)) for k in kinds))
 
 
 class Run(object):
@@ -223,20 +274,14 @@ class Run(object):
         elif kind == "w":
             okind, toks = ev[1], ev[2]
             o = ref.objs[okind]
-            states = []
-            st = o.state()
-            rep = o.reported
-            for tok in toks:
-                st2 = resolve(okind, tok, st, rep)
-                if st2 is None:
-                    raise HarnessError("write token %r not enabled in %r" % (tok, st))
-                if st2[0] != st[0] or tok in ("same", "back"):
-                    sysm.write_value(okind, st2[0], settle=False)
-                if st2[1] != st[1]:
-                    sysm.write_flags(okind, st2[1], settle=False)
-                states.append(st2)
-                st = st2
-            exp = ref.write(okind, states)
+            exp = ref.write(okind, self._issue_writes(okind, toks, o.state(), o.reported))
+            sysm.settle()
+        elif kind == "mw":                  # several objects change in the same instant: ((kind, tokens), ...)
+            writes = []
+            for okind, toks in ev[1]:
+                o = ref.objs[okind]
+                writes.append((okind, self._issue_writes(okind, toks, o.state(), o.reported)))
+            exp = ref.write_many(writes)
             sysm.settle()
         elif kind == "adv":
             exp = ref.advance(float(ev[1]))
@@ -264,6 +309,22 @@ class Run(object):
         if abs(ref.now - vclock.clock.now) > 1e-9:
             raise HarnessError("reference clock %r and virtual clock %r diverged" % (ref.now, vclock.clock.now))
         return problems, obs
+
+    def _issue_writes(self, okind, toks, st, rep):
+        """Assign the properties of the local object as the tokens say, without running the stacks; returns the
+        successive (value, flags) the object took."""
+        states = []
+        for tok in toks:
+            st2 = resolve(okind, tok, st, rep)
+            if st2 is None:
+                raise HarnessError("write token %r not enabled in %r" % (tok, st))
+            if st2[0] != st[0] or tok in ("same", "back"):
+                self.sysm.write_value(okind, st2[0], settle=False)
+            if st2[1] != st[1]:
+                self.sysm.write_flags(okind, st2[1], settle=False)
+            states.append(st2)
+            st = st2
+        return states
 
     def records_invariant(self):
         """The device's own records = the live subscriptions, one each, armed for the expiry last requested."""
@@ -528,6 +589,136 @@ def p2_shard(item, deadline):
     return acc
 
 
+# ----------------------------------------------------------------------------- part 3: many lifetimes, then silence
+
+# ten logical subscriptions on two stacks, two processes and four objects; slot i always asks for lifetime i, confirmed
+# notifications on the even slots.  The lifetimes are distinct and not monotone in the slot number, every expiry
+# (also of a renewal at P3_GAP) is at a whole second of its own, so that "half a second after an expiry" is unambiguous.
+P3_SLOTS = ((0, 1, "av"), (1, 1, "bv"), (0, 1, "msv"), (1, 1, "pc"), (1, 1, "av"), (0, 1, "bv"), (1, 1, "msv"), (0, 1, "pc"),
+            (0, 2, "av"), (1, 2, "bv"))
+P3_LIFETIMES = (11, 5, 21, 9, 33, 14, 7, 25, 17, 28)
+P3_GAP = 1                      # seconds between the last subscription and the cancellation / renewal
+P3_BOUNDS = {                   # tier -> (orders: all permutations of the first n slots, n <=; subsets of the first N; renewals)
+    "quick": (4, 8, (3, 40)),
+    "thorough": (6, 10, (3, 12, 40)),
+}
+
+
+def p3_cfg():
+    return make_cfg("timers", P3_SLOTS, 0)
+
+
+def p3_cases(tier):
+    """(subscription order, action, slot acted on, mode): every order of the first n slots and every subset of the
+    first N slots in slot order x cancel | renew with a lifetime shorter than / between / longer than the others
+    x every subscribed slot x passive (step over every expiry in turn, then probe) | probe right after the k-th expiry."""
+    n_max, n_sub, renewals = P3_BOUNDS[tier]
+    orders = []
+    for n in range(1, n_max + 1):
+        orders.extend(itertools.permutations(range(n)))
+    for n in range(1, n_sub + 1):
+        orders.extend(itertools.combinations(range(n_sub), n))
+    seen = set()
+    acts = [("cancel",)] + [("renew", life) for life in renewals]
+    for order in sorted(orders, key=lambda o: (len(o), o)):
+        if order in seen:
+            continue
+        seen.add(order)
+        for act in acts:
+            for idx in order:
+                n_instants = len(order) - (1 if act[0] == "cancel" else 0)
+                yield (order, act, idx, "passive")
+                for k in range(n_instants):
+                    yield (order, act, idx, k)
+
+
+def p3_timeline(order, act, idx, mode):
+    hist = [("sub", i, i % 2 == 0, P3_LIFETIMES[i]) for i in order]
+    hist.append(("adv", P3_GAP))
+    t = float(P3_GAP)
+    expiry = {i: float(P3_LIFETIMES[i]) for i in order}
+    if act[0] == "cancel":
+        hist.append(("cancel", idx))
+        del expiry[idx]
+    else:                       # the renewal also asks for the other kind of notification
+        hist.append(("sub", idx, idx % 2 != 0, act[1]))
+        expiry[idx] = t + act[1]
+    instants = sorted(set(expiry.values()))
+    if len(instants) != len(expiry):
+        raise HarnessError("part3: two expiries in one instant %r" % (expiry,))
+    probe = [multi_write(sorted(set(P3_SLOTS[i][2] for i in order))), ("read", 0)]
+    if mode == "passive":
+        for e in instants:
+            hist.append(("adv", e + 0.5 - t))
+            t = e + 0.5
+    else:
+        hist.append(("adv", instants[mode] + 0.5 - t))
+    return tuple(hist + probe)
+
+
+def p3_run(cfg, hist):
+    """Run until the first event the oracle objects to (what follows is its consequence)."""
+    r = Run(cfg)
+    for ev in hist:
+        problems, obs = r.apply(ev)
+        if problems:
+            break
+    return r
+
+
+def p3_shard(item, deadline):
+    acc = Acc()
+    cfg = p3_cfg()
+    done = 0
+    cpu0 = time.process_time()
+    for case in item:
+        if time.time() > deadline:
+            acc.cap("part3: deadline after %d of %d timelines of a shard" % (done, len(item)))
+            break
+        hist = p3_timeline(*case)
+        r = p3_run(cfg, hist)
+        done += 1
+        acc.case(("p3",) + case)
+        acc.traces += 1
+        acc.transitions += len(r.log)
+        acc.max_depth = max(acc.max_depth, len(r.log))
+        for ev, obs, problems in r.log:
+            acc.outcome("timers:" + outcome_label(ev, obs))
+        for name, msg in r.sysm.swallowed():
+            acc.swallowed["%s: %s" % (name, msg[:90])] += 1
+        ev, obs, problems = r.log[-1]
+        if not problems:
+            acc.state(r.state_hash())
+            continue
+        log = [(e, o) for e, o, p in r.log]
+        again = p3_run(cfg, hist)
+        if [(e, o) for e, o, p in again.log] != log:
+            raise HarnessError("part3 case %r is not reproducible" % (case,))
+        for sig, detail in problems:
+            acc.fail(sig, {"problem": detail, "case": case, "event": ev, "clock": r.times[-1], "observed": obs[:2],
+                           "timeline": [e for e, o in log]},
+                     {"part": 3, "cfg": cfg, "hist": [e for e, o in log]})
+    acc.add_info("part3 timelines", done)
+    acc.add_info("cpu ms in part3 shards", int((time.process_time() - cpu0) * 1000))
+    return acc
+
+
+def part3(acc, tier, seed, deadline):
+    cases = list(p3_cases(tier))
+    sub = run_shards(p3_shard, chunks(cases, WORKERS * 6), deadline)
+    acc.merge(sub)
+    acc.info["part3 cases"] = len(cases)
+    acc.info["part3 subscription orders"] = len(set(c[0] for c in cases))
+    acc.info["part3 most subscriptions in one timeline"] = max(len(c[0]) for c in cases)
+    if sub.info.get("part3 timelines", 0) != len(cases) and not sub.caps:
+        raise HarnessError("part3: %r of %d timelines were run" % (sub.info.get("part3 timelines"), len(cases)))
+    pick = [c for c in cases if len(c[0]) == max(len(x[0]) for x in cases) and c[3] == "passive"]
+    case = pick[(seed or 0) % len(pick)]
+    r = p3_run(p3_cfg(), p3_timeline(*case))
+    acc.sample({"part": 3, "case": case,
+                "timeline": ["%r -> %s%s" % (e, brief_obs(o), (" !!! %s" % [p[0] for p in ps]) if ps else "") for e, o, ps in r.log]})
+
+
 # ----------------------------------------------------------------------------- entry points
 
 def run(tier, seed, deadline):
@@ -552,16 +743,17 @@ def run(tier, seed, deadline):
 
     cfgs = configs(tier)
     # the configurations with small state spaces (generic kinds, restricted alphabets) run to their bound first
-    small = [c for c in cfgs if c["label"].startswith(("time-", "renew-time")) or c["subs"][0][2] in ("bv", "msv")]
+    small = [c for c in cfgs if c["label"].startswith(("time-", "renew-time", "queue-")) or c["subs"][0][2] in ("bv", "msv")]
     heavy = [c for c in cfgs if c not in small]
     frontier = part1(acc, small, deadline)
+    part3(acc, tier, seed, deadline)
     frontier.update(part1(acc, heavy, deadline))
     for label in sorted(frontier)[::4]:
         fr = frontier[label]
         if fr:
             acc.sample({"part": 1, "cfg": label, "a_timeline_of_the_deepest_level": list(fr[(seed or 0) % len(fr)])})
     acc.info["part1 configurations"] = len(cfgs)
-    acc.info["wall part1+2"] = round(time.time() - t0, 1)
+    acc.info["wall part1+2+3"] = round(time.time() - t0, 1)
     return acc
 
 
